@@ -429,7 +429,9 @@ def rule_store(u, rep):
             if not ok:
                 rep.add("STORE", "serialize", "store does not serialize self exactly once into a buffered writer over the created file", b.loc())
             # nothing but that serialize call puts bytes into the file (bytes no reader consumes survive truncation unnoticed)
-            extra = [e for e in p.events if (e[0] == "W" and e[2] in ("B", "Z", "F", "A")) or (e[0] == "Call" and e[1] == "std" and e[2] in ("write", "write_all", "write_fmt", "write_vectored", "set_len", "seek"))]
+            extra = [e for e in p.events if (e[0] == "W" and e[2] in ("B", "Z", "F", "A")) or (e[0] == "Call" and e[1] == "std" and e[2] in ("write", "write_all", "write_fmt", "write_vectored", "set_len", "seek")
+                                                                                       # OpenOptions::write(bool) is a setter of the builder, not a write to the file
+                                                                                       and "OpenOptions" not in str(e[5] or ""))]
             rep.oblige(not extra)
             if extra:
                 rep.add("STORE", "extra-bytes", "store writes to the file outside the single serialize call (%s): the file is no longer exactly the serialized stream" % (extra[0][2] if extra[0][0] == "Call" else "stream write"), extra[0][-1] if extra[0][0] == "W" else extra[0][4])
